@@ -166,6 +166,26 @@ class Ctx:
                             f"(spec error, not a verdict on the code)\n{tail}\nlog: {logf}")
         return st
 
+    def apalache(self, module, args, label, timeout=900):
+        """Runs `apalache-mc check <args> <module>.tla` (symbolic, unbounded in the constants); the obligation holds
+        iff Apalache reports no error."""
+        outdir = os.path.join(self.work, "apalache")
+        cmd = ["apalache-mc", "check", "--out-dir=" + outdir] + args + [module + ".tla"]
+        t = time.time()
+        try:
+            r = run(cmd, cwd=SPEC, timeout=timeout)
+        except subprocess.TimeoutExpired:
+            raise ToolError(f"apalache {module} {args} timed out")
+        ok = "EXITCODE: OK" in r.stdout and "The outcome is: NoError" in r.stdout
+        st = {"module": module, "cfg": " ".join(args), "label": label, "engine": "apalache", "ok": ok,
+              "wall_s": round(time.time() - t, 1)}
+        self.mc_runs.append(st)
+        log(f"[apalache] {module} {' '.join(args)}: {'ok' if ok else 'FAILED'} in {st['wall_s']}s")
+        if not ok:
+            raise ToolError(f"apalache obligation failed ({label}): specification error, not a verdict on the code\n"
+                            + "\n".join(r.stdout.splitlines()[-25:]))
+        return st
+
     def tlc_eval(self, module, cfg=None, timeout=900, xmx="8g", env=None, workers=1):
         """Runs TLC on a generator module (GEN use); returns stdout."""
         cfg = cfg or module
